@@ -21,5 +21,8 @@ cConts == {EmptyMap, EmptyList}
 P1(a) == <<PK(a, -1)>>
 P2(a, b) == <<PK(a, -1), PK(b, -1)>>
 cOldPaths == {P1("a"), P1("b"), P1("*"), P1("z"), P1("a "), P2("a", "b"), P2("a", "*"), P2("*", "a"), <<PK("a", 0)>>, <<PK("b", 1)>>, <<PK("a", 0), PK("b", -1)>>, <<PK("a", -1), PK("b", 0)>>}
+\* three pairs: a child of P, a pair that walks THROUGH P to a deeper path, again a child of P (all orders)
+cOldPaths3 == {P1("a"), P1("b")}
+cNewPaths3 == {<<"p", "q">>, <<"p", "w", "q">>, <<"p", "r">>, <<"s">>}
 cNewPaths == {<<"p">>, <<"q">>, <<"p", "r">>, <<"q", "p">>, <<"a">>, <<"p", "a", "r">>, <<"p", "b", "r">>, <<"p", "p">>, <<"p", "p", "r">>, <<" p">>, <<"p", "", "r">>}   \* (a name repeated along one new path; names with white space at an edge are taken literally)
 =============================================================================
